@@ -212,6 +212,20 @@ def r2_digitize(ctx: Context) -> None:
         got, want = n.rat(value), n.rat(parse_expr(want_text))
         calls_gc = isinstance(value, ast.Call) and any(isinstance(tg, FuncInfo) and tg.qualname == GC for tg in ctx.prog.resolve_call(f, value))
         if not calls_gc and str(got) != str(want):
+            # computed by arithmetic (lower + k * step, rounding, clipping): equal to a grid element only up to rounding, and only for evenly spaced grids -
+            # not an element of the column's grid *by construction*, which is what this rule (and the Grid typestate of C03) demands
+            arith = any(isinstance(x, ast.BinOp) and isinstance(x.op, (ast.Add, ast.Mult, ast.Sub, ast.Div, ast.FloorDiv)) for x in ast.walk(value))
+            helper_arith = False
+            for c_ in [x for x in ast.walk(value) if isinstance(x, ast.Call)]:
+                for tg in ctx.prog.resolve_call(f, c_):
+                    if isinstance(tg, FuncInfo) and tg.qualname != GC:
+                        rets_h = [r_.value for r_ in returns_of(tg) if r_.value is not None]
+                        if rets_h and not any(isinstance(rv, ast.Subscript) for rv in rets_h) and any(isinstance(x, ast.BinOp) and isinstance(x.op, (ast.Add, ast.Mult)) for rv in rets_h for x in ast.walk(rv)):
+                            helper_arith = True
+            if arith or helper_arith:
+                ctx.fail("R2.element", "digitize_data:column-computed", f"the column value `{src(value)[:90]}` is computed arithmetically instead of being taken out of the column's grid: "
+                         "it coincides with a grid element only up to floating-point rounding (and only on an evenly spaced grid that starts where the formula assumes)", f, where)
+                return
             raise AnalysisError(f"{f.loc(where)}: the column value `{src(value)[:80]}` is not a direct get_closest call; cannot decide R2")
         ctx.check(str(got) == str(want), "R2.pairing", "digitize_data:column-pairing", "column i <- get_closest(param_grid[i], data[:, i])",
                   f"column value is `{src(value)}` = `{got}`: column, grid and data indices do not pair up", f, where)
